@@ -21,6 +21,29 @@ def mc(res, module, cfg, what, workers=16, timeout=1200):
             raise vlib.Machinery(f"{module} failed: " + r["stdout"][-1500:])
 
 
+def apalache_binary_gadget(res):
+    """Unbounded (all integers) check of the binary McCormick gadget with Apalache/SMT. A stall or tool failure is
+    reported as 'not discharged' in the evidence, never as a violation."""
+    import subprocess, tempfile, shutil
+    out = tempfile.mkdtemp(prefix="apa_", dir=vlib.scratch_dir())
+    try:
+        p = subprocess.run(["apalache-mc", "check", "--init=Init", "--inv=BinExact", "--length=0", "--out-dir=" + out,
+                            "Apa_Gadgets.tla"], cwd=vlib.SPEC, capture_output=True, text=True, timeout=240)
+        txt = p.stdout + p.stderr
+    except Exception as e:
+        txt = "TIMEOUT/FAILURE " + str(e)
+    shutil.rmtree(out, ignore_errors=True)
+    if "The outcome is: NoError" in txt:
+        res.mc.append({"tool": "apalache 0.58", "module": "Apa_Gadgets", "property": "BinExact for all integers ub>=0, 0<=c<=ub, b in {0,1}, all p",
+                       "discharged": True})
+        res.clause("Apalache_BinExact_unbounded", 1, 0)
+    elif "The outcome is: Error" in txt:
+        res.clause("Apalache_BinExact_unbounded", 1, 1)
+        res.violation("DesignLevel_Apa_Gadgets", {"id": "Apa_Gadgets", "apalache": txt[-1500:]})
+    else:
+        res.mc.append({"tool": "apalache 0.58", "module": "Apa_Gadgets", "discharged": False, "note": txt[-300:]})
+
+
 def histories(tier, seed, res):
     """TLC -simulate behaviours of Wrapper.tla (Gen_Wrapper.tla carries the history variable)."""
     num = 400 if tier == "quick" else 4000
@@ -69,6 +92,7 @@ def run(tier, seed):
     # design level
     mc(res, "MC_Gadgets", "MC_Gadgets.cfg", {"what": "binary / integer / piecewise gadgets exact on the grid ub<=12"})
     mc(res, "Wrapper", "MC_Wrapper.cfg", {"what": "queued updates invisible until Optimize; LB request leaves UB alone"})
+    apalache_binary_gadget(res)
     # histories
     hs = histories(tier, seed, res)
     if tier == "quick":
